@@ -82,6 +82,15 @@ known('C17', 'H4', 'advection._fsign/absolute-threshold',
       "K/L: its output is not homogeneous, so TVD results are unit-independent only while no |dphi| falls below 1e-16 in either unit system. "
       "Not repaired: a relative threshold needs a reference scale that the function does not receive (signature change in 9 callers).")
 
+PER7 = ("Same root as C03.B3: on a periodic axis with unequal first/last cell sizes the periodic rows determine the ghost values as "
+        "((r-1)*phi_1 + 2*phi_N)/(1+r) etc. with r = dx_end/dx_1, i.e. with a negative weight when the end cells differ, so the assembled matrix is "
+        "not an M-matrix there and the range property can fail; with equal end cells all weights are non-negative.")
+for cons in ['boundaryConditionsTerm1D/periodic/axis=x', 'boundaryConditionsTerm2D/periodic/axis=x', 'boundaryConditionsTerm2D/periodic/axis=y',
+             'boundaryConditionsTerm3D/periodic/axis=x', 'boundaryConditionsTerm3D/periodic/axis=y', 'boundaryConditionsTerm3D/periodic/axis=z',
+             'boundaryConditionsTermCylindrical3D/periodic/axis=y', 'boundaryConditionsTermCylindrical3D/periodic/axis=z',
+             'boundaryConditionsTermPolar2D/periodic/axis=y', 'boundaryConditionsTermSpherical3D/periodic/axis=y', 'boundaryConditionsTermSpherical3D/periodic/axis=z']:
+    known('C07', 'M3', 'boundary.' + cons + '[nonnegative-only-for-equal-end-cells]', PER7)
+
 exec(open(os.path.join(os.path.dirname(__file__), 'known_more.py')).read()) if os.path.exists(os.path.join(os.path.dirname(__file__), 'known_more.py')) else None
 json.dump(dict(findings=f), open('/verif/known_findings.json', 'w'), indent=1)
 print(len(f), 'entries')
